@@ -61,6 +61,11 @@ def centres(geom, rho=None):
     if geom == "coincident":
         c = tuple(hvec("eri-c", 3, -0.5, 0.5))
         return [c, c, c, c]
+    if geom == "nearfar":
+        # four distinct centres within 1e-3 bohr of each other (ghost functions / displaced geometries), the group
+        # about 60 bohr from the coordinate origin: distinct centres that a relative-tolerance test would confuse
+        o = np.array(al.FAR_OFFSET)
+        return [tuple(o + 3e-4 * np.array(hvec("eri-nf%d" % i, 3, -1.0, 1.0)) * (i > 0)) for i in range(4)]
     if geom == "collinear":
         o = np.array(hvec("eri-o", 3, -0.5, 0.5))
         d = np.array(hvec("eri-d", 3, 0.3, 1.0)) * np.array([1, -1, 1])
@@ -109,8 +114,31 @@ def ill_shells(ti, xy, place):
     return [X(cs[0]), T(cs[1]), T(cs[1]), Y(cs[3])]
 
 
+# primitive-order family: the three primitives of one shell of the quartet listed in each of their 6 orders
+ORDER_LS = [(0, 1, 1, 0), (2, 0, 1, 1), (1, 1, 0, 2)]
+ORDER_EXPS = (0.31, 2.4, 17.0)
+ORDER_COEF = (0.55, 0.4, 0.15)
+
+
+def order_shells(cfg):
+    cs = centres("general")
+    perm = list(itertools.permutations(range(3)))[cfg["perm"]]
+    shells = []
+    for i in range(4):
+        if i == cfg["pos"]:
+            ex = [ORDER_EXPS[k] for k in perm]
+            co = [[ORDER_COEF[k], (-0.3, 0.7, 0.45)[k]] for k in perm]
+        else:
+            K = 1 + (i + cfg["pos"]) % 2
+            ex = [(0.9, 3.3, 0.25, 1.6)[i] * f for f in (1.0, 0.3)[:K]]
+            co = al.coeffs(K, 1, rot=i)
+        shells.append(RefShell(cfg["ls"][i], cs[i], ex, co, "cartesian"))
+    return shells
+
+
 def bounds(tier):
-    return {"quartets": 256, "geometries": "general + one Boys-ladder separation per quartet" if tier == "quick" else "general, coincident, collinear + 5 Boys-ladder separations (rho R^2 = 12..45)",
+    return {"quartets": 256, "primitive_orders": "all 6 orders of a 3-primitive shell x 4 positions x %d quartet types" % len(ORDER_LS),
+            "near_far_geometry": "every 4th quartet (quick) / all (thorough)", "geometries": "general + one Boys-ladder separation per quartet" if tier == "quick" else "general, coincident, collinear + 5 Boys-ladder separations (rho R^2 = 12..45)",
             "exponent_patterns": 2 if tier == "quick" else len(EXPAT) - 2, "boys_ladder_patterns": "all-mid" if tier == "quick" else "all-mid, all-hi",
             "contraction_patterns": 1 if tier == "quick" else 4, "ill_conditioned_quartets": len(TIGHT) * len(XY) * len(PLACE),
             "whole_bases": "2-4 shells, all type patterns, both notations"}
@@ -122,10 +150,16 @@ def configs(tier, seed):
         for xy in XY:
             for pl in PLACE:
                 out.append({"kind": "ill", "tight": ti, "xy": list(xy), "place": pl})
-    geoms = ["general"] if tier == "quick" else ["general", "coincident", "collinear"] + ["boys%g" % T for T in BOYS_T]
+    for ls in ORDER_LS:
+        for pos in range(4):
+            for perm in range(6):
+                out.append({"kind": "order", "ls": list(ls), "pos": pos, "perm": perm})
+    geoms = ["general"] if tier == "quick" else ["general", "coincident", "collinear", "nearfar"] + ["boys%g" % T for T in BOYS_T]
     for qi, ls in enumerate(itertools.product(range(4), repeat=4)):
         qg = list(geoms)
         if tier == "quick":
+            if qi % 4 == 1:
+                qg.append("nearfar")
             qg.append("boys%g" % BOYS_T[qi % len(BOYS_T)])
             if sum(ls) >= 6 and "boys22" not in qg:
                 qg.append("boys22")  # high Boys orders just above a typical switch-over argument
@@ -134,6 +168,8 @@ def configs(tier, seed):
                 for kp in range(len(km_patterns(sum(ls), tier))):
                     if g.startswith("boys") != (ep in (5, 6)):
                         continue  # patterns 5, 6 (all mid / all hi: large rho, so high Boys orders carry weight) <-> Boys ladder
+                    if g == "nearfar" and tier == "quick" and ep != 0:
+                        continue
                     if g.startswith("boys") and (kp != 0 or (tier == "quick" and ep != 5)):
                         continue
                     out.append({"kind": "quartet", "ls": list(ls), "geom": g, "ep": ep, "kp": kp, "tier": tier})
@@ -151,6 +187,8 @@ BASIS_LADDER = [(0, 2, 2), (1, 1, 1), (2, 2, 1), (1, 2, 2), (3, 1, 1), (0, 1, 1)
 def build(cfg):
     if cfg["kind"] == "ill":
         return ill_shells(cfg["tight"], cfg["xy"], cfg["place"])
+    if cfg["kind"] == "order":
+        return order_shells(cfg)
     if cfg["kind"] == "quartet":
         ls = cfg["ls"]
         lev = levels(ls)
@@ -187,7 +225,7 @@ def evaluate(cfg):
     o = Obs(cfg)
     shells = build(cfg)
     g = [gshell(s) for s in shells]
-    if cfg["kind"] in ("ill", "quartet"):
+    if cfg["kind"] in ("ill", "quartet", "order"):
         blk = ElectronRepulsionIntegral.construct_array_contraction(*g)
         o.call()
         n = [x.norm_cont for x in g]
@@ -195,7 +233,7 @@ def evaluate(cfg):
                * n[2][None, None, None, None, :, :, None, None] * n[3][None, None, None, None, None, None, :, :])
         ref = coulomb.eri_block(*shells, cart8=True)
         sc = schwarz4(*shells)
-        key = "eri-block-ill" if cfg["kind"] == "ill" else "eri-block"
+        key = {"ill": "eri-block-ill", "order": "eri-block-primitive-order"}.get(cfg["kind"], "eri-block")
         o.cmp("construct_array_contraction (ab|cd)", blk, ref, TOL, sc, key=key, floor=1e-250)
     else:
         ref = coulomb.eri_tensor(shells)
